@@ -6,6 +6,9 @@ HERE = os.path.dirname(os.path.dirname(os.path.abspath(__file__)))
 
 # id -> (technique, level text, level note, design ref)
 CLAIMED = {
+ "C15": ("relational bounds analysis of the parsers, must-pass-through (packet and handshake MACs), accumulator-state reachability rule for the re-run parser, freshness/ownership of partial-packet state, typestate of ticket use, E7 layout terms vs spec, C10 instances over go/ssa",
+         "Decides: all parser/builder bounds (the F2 defect was found here and fixed); only MAC-verified payload-flag packets surface, MAC over header-then-body ciphertext, header layout agreement, private copies of partial MAC/header; tickets deleted before being handed out, expired ones refused, persisted issue time kept, fallback to UniformDH with no prior write; handshake MAC guard and no retry after feeding the running HMAC; handshake layouts, key-material offsets, constants; deadline/loop/short-read/fault rules. Byte-exact delivery against a conforming server is not decided.",
+         "go/types+go/ssa faithful; contract table; checker/spec/scramblesuit.json", "DESIGN.md section 4, C15"),
  "C13": ("structural/def-use rules on the UniformDH big-integer dataflow, E7 role table of the obfs3 key derivation vs spec, closed guard sets for the magic scan, single-writer/ownership for the buffer hand-over, deadline typestate over go/ssa",
          "Decides: even exponent before Exp, coin selects X / p-X, FillBytes into 192-byte buffers, 192-byte import check; INIT/RESP streams and magics per role as specified; whole-buffer scan with the 8194/8226 bounds and exact drop; reader rewired only on empty buffer and the buffer object never replaced; padding draws in [0,4097]; deadlines. Modular arithmetic, AES-CTR and byte-exact delivery are not decided.",
          "go/types+go/ssa faithful; math/big semantics; checker/spec/obfs3.json", "DESIGN.md section 4, C13"),
